@@ -85,7 +85,7 @@ func c14Run(rc *RunCtx, params any) {
 	rc.R.Class = fmt.Sprintf("%s/cid=%v/store%d", p.Auth, p.CID, p.StorePm)
 	rc.R.NonTriv = true
 	cstore, sstore := NewSimStore(s, "cstore", 0), NewSimStore(s, "sstore", 0)
-	env := &Env{Stores: map[string]dtls.SessionStore{"cstore": cstore, "sstore": sstore}}
+	env := &Env{Stores: map[string]dtls.SessionStore{"cstore": cstore, "sstore": sstore}, KeyLogs: map[string]*KeyLog{}}
 	seenRandoms := map[string]int{}
 	var burnedIDs [][]byte // session IDs on which some endpoint emitted a fatal alert: (who, id)
 	var burnedBy []string
@@ -274,28 +274,34 @@ func c14Run(rc *RunCtx, params any) {
 			if !DataFlows(rc, pair, 2) {
 				return
 			}
-			// provoke a fatal alert from one endpoint: cleartext application data after establishment
-			if cc.Poison != "" {
+			// provoke a fatal alert from one endpoint: a record that authenticates under the peer's
+			// keys (reference record layer, keys from the key log) and is malformed inside - an alert
+			// one byte long. (Cleartext records no longer do: an established session discards them.)
+			if dec := NewRecDecoder(pair, n, cspec, sspec); cc.Poison != "" && dec != nil && dec.ref12 != nil {
 				before := len(n.Emits)
-				junk := []byte{23, 0xfe, 0xfd, 0, 0, 0, 0, 0, 0, 0x7f, 0x01, 0, 3, 1, 2, 3}
+				victim, vside := cname, "c"
+				vcid := cspec.CIDOf()
+				if cc.Poison == "s" {
+					victim, vside, vcid = sname, "s", sspec.CIDOf()
+				}
+				if !p.CID {
+					vcid = nil
+				}
+				junk := dec.ref12.Seal(cc.Poison == "s", CTAlert, 1, 5000, vcid, len(vcid) > 0, []byte{2}, 0)
 				if cc.Poison == "c" {
 					n.InjectNow(pair.SAddr, pair.CAddr, junk)
 				} else {
 					n.InjectNow(pair.CAddr, pair.SAddr, junk)
 				}
+				s.Fault("authenticated-malformed-alert")
 				s.Run(func() bool { return false }, time.Second)
-				victim := cname
-				if cc.Poison == "s" {
-					victim = sname
-				}
 				alerted := false
 				for _, em := range n.Emits[before:] {
 					if em.Ep != victim {
 						continue
 					}
-					recs, _ := ParseDatagram(em.Data, 4)
-					for _, r := range recs {
-						if r.Type == CTAlert || r.Type == CTCID {
+					for _, r := range dec.OpenDatagram(vside, em.Data) {
+						if r.Type == CTAlert && len(r.Plain) == 2 && r.Plain[0] == 2 {
 							alerted = true
 						}
 					}
